@@ -884,6 +884,62 @@ Proof.
   destruct (remove_stage_spec _ _ _ _ _ H MI) as [A [B [_ [C [D _]]]]]. cbv zeta. auto.
 Qed.
 
+(* ---------- stage identity: positions and member lists never shift ---------- *)
+
+Lemma nth_error_firstn_lt : forall {A} n (l : list A) i, (i < n)%nat ->
+  nth_error (firstn n l) i = nth_error l i.
+Proof.
+  induction n as [|n IH]; intros l i Hlt; [lia|].
+  destruct l as [|a r]; [reflexivity|]. destruct i as [|i]; cbn; [reflexivity|]. apply IH. lia.
+Qed.
+
+(* add_stage only ever appends: the new window starts no earlier than every existing
+   stage ends, every existing stage keeps its position, its data and its member entries *)
+Theorem add_stage_appends : forall w now sender s ms w',
+  step w now (AddStage sender s ms) = Ok w' ->
+  w_stages w' = w_stages w ++ [s] /\
+  (forall si, In si (w_stages w) -> s_end si <= s_start s) /\
+  (forall i, (i < length (w_stages w))%nat ->
+     nth_error (w_stages w') i = nth_error (w_stages w) i /\
+     forall a, mem_get (w_mem w') i a = mem_get (w_mem w) i a).
+Proof.
+  intros w now sender s ms w' H. cbn [step] in H.
+  destruct (add_stage_ok _ _ _ _ _ _ H) as [_ [_ [E [_ [V [_ [_ [_ F]]]]]]]].
+  destruct (validate_stages_inv _ _ _ V) as [[_ [_ W2]] _].
+  split; [exact E|]. split.
+  - intros si Hin. apply In_nth_error in Hin. destruct Hin as [i Hi].
+    assert (Hl : (i < length (w_stages w))%nat) by (apply nth_error_Some; congruence).
+    apply (W2 i (length (w_stages w)) si s Hl).
+    + rewrite nth_error_app1 by exact Hl. exact Hi.
+    + rewrite nth_error_app2 by lia. rewrite Nat.sub_diag. reflexivity.
+  - intros i Hl. split; [rewrite E; apply nth_error_app1; exact Hl|].
+    intros a. apply F. lia.
+Qed.
+
+(* every accepted operation: a stage position that exists before and after holds the same
+   stage (unless it is the one being updated) and the same member entries (unless it is the
+   one whose members are being edited) *)
+Theorem stage_identity_stable : forall w now o w', step w now o = Ok w' ->
+  forall i, (i < length (w_stages w))%nat -> (i < length (w_stages w'))%nat ->
+  (match o with UpdateStage _ id _ _ _ _ _ _ => i <> N.to_nat id | _ => True end ->
+     nth_error (w_stages w') i = nth_error (w_stages w) i) /\
+  (match o with AddMembers _ id _ | RemoveMembers _ id _ => i <> N.to_nat id | _ => True end ->
+     forall a, mem_get (w_mem w') i a = mem_get (w_mem w) i a).
+Proof.
+  intros w now o w' H i Hl Hl'. destruct o.
+  - destruct (add_stage_appends _ _ _ _ _ _ H) as [_ [_ F]]. destruct (F i Hl). split; auto.
+  - cbn [step] in H. destruct (remove_stage_ok _ _ _ _ _ H) as [_ [_ [s [_ [_ [E [M _]]]]]]].
+    rewrite E, firstn_length in Hl'. split; intros _.
+    + rewrite E. apply nth_error_firstn_lt. lia.
+    + intros a. rewrite M. apply mem_get_drop_below. lia.
+  - pose proof (update_stage_frame _ _ _ _ _ _ _ _ _ _ _ H) as [_ [F [M _]]].
+    split; [intros Hne; apply F; exact Hne|intros _ a; rewrite M; reflexivity].
+  - pose proof (member_edits_frame _ _ _ _ H) as [E F]. cbn beta iota in *.
+    split; [intros _; rewrite E; reflexivity|intros Hne a; apply F; exact Hne].
+  - pose proof (member_edits_frame _ _ _ _ H) as [E [_ F]]. cbn beta iota in *.
+    split; [intros _; rewrite E; reflexivity|intros Hne a; apply F; exact Hne].
+Qed.
+
 (* ---------- fixtures for the Examples of props/C13.v ---------- *)
 Definition T : N := 1647032401000000000.
 Definition st3 : list stage :=
